@@ -274,6 +274,45 @@ def kppi_case(run, ps, rng, n, fam, Nk, Npi, pimax_fac, nthread, L):
     return False
 
 
+def config_space_case(run, ps, rng, n, L, nthread, Nr, poles):
+    """fourier=False: the same kernels bin a real (n,n,n) mesh in separation r (pk_to_xi's use); the
+    full-mesh enumeration is identical with step L/n instead of 2pi/L."""
+    dr = L / n
+    redges = np.linspace(0.013 * dr, rng.uniform(0.6, 1.9) * (n // 2) * dr, Nr + 1)
+    muedges = np.linspace(0, 1, [1, 2, 4][n % 3] + 1)
+    full = rng.permutation(n**3).reshape(n, n, n).astype(np.float64) + 1.0
+    desc = dict(kernel='bin_kmu', fourier=False, n=n, Nr=Nr, Nmu=len(muedges) - 1, poles=list(poles), nthread=nthread, L=L)
+    run.ev()
+    run.progress(desc)
+    with warnings.catch_warnings():
+        warnings.simplefilter('ignore')
+        wc, cnt, wcp, cntp, wck = ps.bin_kmu(n, L, redges, muedges, full, poles=np.array(poles, dtype=np.int64), dtype=np.float64, fourier=False, nthread=nthread)
+    ref = reference(n, L, redges, muedges, full[:, :, : n // 2 + 1], 'kmu', poles, fourier=False)
+    if (ref['count'] > 0).sum() >= 2:
+        run.nt(('config-space', n, Nr, len(muedges), tuple(poles), nthread))
+    if compare_counts(run, cnt, ref, desc, 'config-space-binning'):
+        return
+    clean = ref['maxextra'] == 0
+    ok = np.isclose(wc * cnt, ref['sum'], rtol=1e-12, atol=1e-9) | ~clean
+    if not ok.all():
+        i = np.argwhere(~ok)[0]
+        return run.violation('config-space-binning', dict(problem='per-bin sum differs', bin=[int(x) for x in i], **desc))
+    ok = np.isclose(wck * cnt, ref['sumk'], rtol=1e-10, atol=1e-9) | ~clean
+    if not ok.all():
+        return run.violation('config-space-ravg', desc)
+    # bin_kppi in configuration space
+    Npi = int(rng.integers(1, 6))
+    pimax = rng.uniform(0.4, 1.3) * (n // 2) * dr
+    wc2, cnt2 = ps.bin_kppi(n, L, redges, pimax, Npi, full, dtype=np.float64, fourier=False, nthread=nthread)
+    run.ev()
+    ref2 = reference(n, L, redges, np.linspace(0.0, pimax, Npi + 1), full[:, :, : n // 2 + 1], 'kppi', fourier=False)
+    if compare_counts(run, cnt2, ref2, dict(desc, kernel='bin_kppi', Npi=Npi), 'config-space-binning'):
+        return
+    ok = np.isclose(wc2 * cnt2, ref2['sum'], rtol=1e-12, atol=1e-9) | ~(ref2['maxextra'] == 0)
+    if not ok.all():
+        return run.violation('config-space-binning', dict(problem='per-bin sum differs', kernel='bin_kppi', **desc))
+
+
 def thread_independence(run, ps, rng, n, L):
     kedges = edge_family(rng, 'notie', n, L, 6)
     muedges = np.linspace(0, 1, 4)
@@ -343,8 +382,8 @@ def check(run):
                 k += 1
                 Nk = int(rng.integers(1, 9))
                 Nmu = [1, 2, 3, 4, 7, 5][k % 6]
-                poles = [(), (0, 2, 4), (0,), (2,), (0, 1, 2, 3, 4)][k % 5]
-                nthread = [1, 2, 16, 3, 7][k % 5]
+                poles = [(), (0, 2, 4), (0,), (2,), (0, 1, 2, 3, 4), (2, 0, 4), (4, 2, 0), (3, 1)][k % 8]  # any order, any subset
+                nthread = [1, 2, 16, 3, 7][(k // 2) % 5]
                 L = [1.0, 2 * np.pi, 500.0][k % 3]
                 if n > 33 and k % 3:
                     continue
@@ -356,6 +395,9 @@ def check(run):
                     return
     run.sample(dict(kernel='bin_kmu', n=7, edges='beyond_nyq', Nk=4, Nmu=3, poles=[0, 2, 4], nthread=16, mesh='distinct integers 1..n*n*(n//2+1), dtype float64'))
     run.sample(dict(kernel='bin_kppi', n=8, edges='above0_belownyq', Nk=3, Npi=4, pimax_over_nyq=0.5))
+    for n in (range(2, 13) if run.quick else range(2, 33)):
+        for rep in range(1 if run.quick else 3):
+            config_space_case(run, ps, rng, n, [1.0, 250.0][n % 2], [1, 16, 3][n % 3], int(rng.integers(1, 7)), [(), (0, 2), (0, 2, 4)][n % 3])
     for n in ([5, 8, 12] if run.quick else [3, 5, 8, 9, 12, 16, 24, 31]):
         thread_independence(run, ps, rng, n, 100.0)
     for n in ([4, 7, 10] if run.quick else range(3, 20)):
